@@ -20,6 +20,7 @@ def crc_table():
 
 def run(prog, chk):
     encode_table(prog, chk)
+    crc_value_table(prog, chk)
     chk.explanation = (
         "(R5) the base-32 encode table equals the RFC 4648 alphabet; the CRC table of crc32.c equals the table generated from polynomial "
         "0xEDB88320. (R6) one iteration of the decoder loop of KSI_base32Decode is evaluated for one representative of every character "
@@ -176,6 +177,38 @@ def run(prog, chk):
     cps = [n for b, i, n in ft.calls("memcpy")]
     okm = len(cps) == 1 and show(ft.deep(cps[0]["a"][0]), ft).replace(" ", "").endswith("+8)")
     chk.ob("C17.encode", "toBase32:imprint-at-8", okm, "the imprint is copied behind the 8-byte time", loc=ft.loc(), fn=ft)
+
+
+def crc_value_table(prog, chk):
+    """KSI_crc32 evaluated on byte strings of every length class a publication string produces (8 + 1 + digest octets: 29, 37, 41, 57,
+    73) and of every residue modulo 8 and 4 (unrolled variants treat tails separately), compared with the reference CRC-32."""
+    import zlib
+    from ksirules.bufinterp import BufInterp
+    from ksirules.interp import Ptr, succeed_model
+    chk.rule("C17.crc.table", "KSI_crc32 equals the reference CRC-32 for every length class and tail residue (value table)", floor=25)
+    fc = prog.fn("KSI_crc32", "crc32.c")
+    dp, lp, ip = [p["n"] for p in fc.params]
+    seed = 12345
+    for L in list(range(0, 18)) + [29, 31, 37, 41, 45, 57, 73]:
+        data = []
+        for k in range(L):
+            seed = (seed * 1103515245 + 12345) & 0x7fffffff
+            data.append((seed >> 16) & 0xff)
+        for ival in ((0,) if L not in (5, 41) else (0, 0x1234abcd)):
+            inputs = {dp: Ptr("D"), lp: L, ip: ival}
+            for k, v in enumerate(data):
+                inputs["D[%d]" % k] = v
+            I = BufInterp(fc, {"D": L}, inputs=inputs, call_model=succeed_model(prog, {}), on_unknown="stop", prog=prog, loop_bound=L + 4)
+            paths = I.run()
+            chk.paths += len(paths)
+            inst = "crc32[%d octets%s]" % (L, "" if ival == 0 else ", continued from %#x" % ival)
+            if len(paths) != 1 or paths[0].undetermined:
+                raise AnalysisBroken("KSI_crc32: evaluation not determined for %s: %s" % (inst, [q.undetermined[:1] for q in paths]))
+            want = zlib.crc32(bytes(data), ival) & 0xffffffff
+            got = paths[0].ret
+            reads_outside = [t for t in paths[0].trace if t[0] == "read" and isinstance(t[1], str) and t[1].startswith("D[") and int(t[1][2:-1]) >= L]
+            chk.ob("C17.crc.table", inst, got == want and not reads_outside, "expected %#010x; source returns %s%s"
+                   % (want, ("%#010x" % got) if isinstance(got, int) else got, "; reads beyond the input" if reads_outside else ""), loc=fc.loc(), fn=fc, nontrivial=L % 8 >= 5)
 
 
 def encode_table(prog, chk):
